@@ -34,6 +34,7 @@ let run_case ~(v0 : bool) (c : case) =
     | ["nlists"; n] -> nlists := int_of_string n
     | ["cmpmode"; _] -> ()
     | ["vsign"; _] -> ()
+    | "offs" :: _ -> ()
     | _ ->
       let key n = let i = int_of_nat n in if i < Array.length !keys then !keys.(i) else BinNums.Z0 in
       let s = match !st with Some s -> s | None -> sys_init (nat_of_int !nlists) in
@@ -97,6 +98,7 @@ let run_case_ptr (c : case) =
     | "keys" :: ks -> keys := Array.of_list (L.map z_of_string ks)
     | ["nlists"; n] -> nlists := int_of_string n
     | ["vsign"; _] -> ()
+    | "offs" :: _ -> ()
     | ["cmpmode"; _] -> ()
     | _ ->
       let key n = let i = int_of_nat n in if i < Array.length !keys then !keys.(i) else BinNums.Z0 in
